@@ -291,9 +291,11 @@ func RunTrackers(env *Env, plan *TrackerPlan) {
 			cp := *a
 			st.last = &cp
 			if a.ReplyOK {
+				st.acceptedOK = true
+			}
+			if a.ReplyOK && !a.Ambiguous {
 				st.lastOK = &cp
 				st.lastOKAt = a.At
-				st.acceptedOK = true
 			}
 			// C16 tier sequence (per torrent and tier), events other than stopped
 			if a.Event != "stopped" && !a.Cancelled {
